@@ -26,7 +26,9 @@ CFG = {
             "k_0 in [0.9,1.1], false origins up to +-1e7, units m/ft/us-ft, axis, each of the 43 built-in ellipsoids in turn, spheres via +a=+b= / +ellps=sphere, +R_A, custom a/b, a/rf, "
             "datums none / the 16 named / 3- and 7-term +towgs84, +pm named and numeric, UTM zones 1-60 N/S) x a geographic CRS (same datum, WGS84, or another datum) x positions stratified "
             "over the usable region including its border (|dlon| = 3.5 deg for tmerc/utm, |lat| = 85 merc, cone-side latitudes, standard parallels, lat_0); one case = one definition pair with 8 positions, "
-            "each run through A->B, B->A, A->B on freshly parsed CRSs. distinct = distinct input line; non-trivial = every class",
+            "each run through A->B, B->A, A->B on ONE reused forward and ONE reused inverse transformer per line (plus a fresh-per-call control); "
+            "plus WKT-defined systems (ESRI Mercator_Auxiliary_Sphere, and the testData PROJCS texts of the supported kinds); plus one `cl` line per parameterisation: the closure pair of "
+            "sr.Transformers() obtained once, 8 in-region positions, then rejected calls (poles, NaN, out of range), then the 8 positions again, against freshly obtained closures. distinct = distinct input line; non-trivial = every class",
     "timeout": {"quick": 900, "thorough": 3000},
     "trivial_class": r"^$",
 }
